@@ -22,10 +22,10 @@ ASSUMPTIONS = [
     'a coordinate whose product with the grid size is within 1e-9 of an integer may be counted in either neighbouring voxel',
     'size inequalities use 1e-12 relative slack',
 ]
-N_CASES = {'quick': 400, 'thorough': 12000}
-RT_MAX = {'quick': 3000, 'thorough': 20000}
+N_CASES = {'quick': 400, 'thorough': 60000}
+RT_MAX = {'quick': 3000, 'thorough': 50000}
 RT_CHUNK = 250
-BUDGET_S = {'quick': 200, 'thorough': 2400}
+BUDGET_S = {'quick': 200, 'thorough': 3600}
 
 _mon = Monitor()
 
